@@ -127,6 +127,8 @@ func drawProgram(t *rapid.T) *pkgProg {
 		out.plugins[dc.Kind] = true
 		out.calls = append(out.calls, dc.Kind+":"+dc.Type.Str(p.Q()))
 	}
+	// the calls of p sit in one to three files (which file is parsed first is up to the loader)
+	p.SplitCalls = rapid.IntRange(1, 3).Draw(t, "callfiles")
 	files := p.Files()
 	// package q imports p and has derive calls of its own over p's types
 	var qs strings.Builder
